@@ -8,6 +8,7 @@ import traceback
 REGISTRY = {
     "C02": ("harness.checks.mesh_checks", "C02"),
     "C10": ("harness.checks.mesh_checks", "C10"),
+    "C06": ("harness.checks.dorfler_check", "C06"),
 }
 
 
